@@ -489,7 +489,7 @@ def part_c2(env, res, rng, hist, deadline):
     tier = env['tier']
     st = dict(cases=0, schedules=0, ops={}, threads={}, list_lengths={})
     n0 = len(res.failures)
-    for ci in range(300 if tier == 'quick' else 5000):
+    for ci in range(200 if tier == 'quick' else 5000):
         if len(res.failures) > n0 or time.time() > deadline:
             break
         case = gen_list_case(rng, ['tiny', 'mid', 'tiny', 'mid'][ci % 4])
